@@ -134,6 +134,33 @@ def check_circuit(recipe, env, maxph, acc, late=False):
     acc.sample({"recipe": recipe["name"], "ops": recipe["ops"], "max_photons": maxph}, limit=2)
 
 
+def check_reuse(env, acc):
+    """One Simulator object reused while the circuit's parameters move by tiny and by large steps."""
+    par = lw.Parameter(env.PH[0])
+    r = lw.Parameter(env.R[1])
+    c = lw.Circuit(3)
+    c.bs(0, reflectivity=r); c.ps(1, par); c.bs(1, reflectivity=env.R2, convention="H"); c.bs(0); c.herald(1, 2, 0)
+    sim = emu.Simulator(c)
+    ins = [lw.State([1, 1]), lw.State([2, 0])]
+    steps = [0.0, 1e-3, 1e-5, 1e-7, -1e-6, 0.5, 3e-6, 1e-8]
+    for k, dphi in enumerate(steps):
+        par.set(par.get() + dphi)
+        if k % 3 == 2:
+            r.set(r.get() + 1e-6)
+        acc.tick("executions"); acc.tick("transitions")
+        res = sim.simulate(ins)
+        uf, h = c.U_full, c.heralds
+        for a, i in enumerate(ins):
+            for b, o in enumerate(res.outputs):
+                w = ref_amp(uf, h["input"], h["output"], 0, tuple(i.s), tuple(o.s))
+                if abs(res.array[a, b] - w) > 1e-10:
+                    acc.violation("amplitude_after_small_parameter_change",
+                                  {"scenario": "simulator_reuse", "step": k, "nudges": steps[: k + 1], "seed": env.seed},
+                                  {"impl": complex(res.array[a, b]), "ref": complex(w)})
+                    return
+    acc.state("reuse")
+
+
 def run(tier, seed):
     env = Env(seed)
     fam = emulator_family(env, tier)
@@ -147,6 +174,7 @@ def run(tier, seed):
         return acc
 
     acc = kernel.pmap(shard_fn, kernel.interleave(fam, kernel.NPROC * 2))
+    ra = kernel.Acc(); check_reuse(env, ra); acc.merge(ra)
     meta = {
         "rule": "every circuit recipe of the family (n in 2..4 x 5 loss placements incl. loss 0 and 1 x 7 herald "
                 "layouts incl. in!=out and descending declaration + internal ancillas from heralded subs) x every "
@@ -165,5 +193,8 @@ def run(tier, seed):
 def replay(w, acc):
     case = w["case"]
     env = Env(case.get("seed", 0))
+    if case.get("scenario") == "simulator_reuse":
+        check_reuse(env, acc)
+        return
     rc = case["recipe"]
     check_circuit(rc, env, 3 if rc["n"] < 4 else 2, acc, late=bool(case.get("simulator_created_before_circuit_was_built")))
